@@ -101,7 +101,7 @@ def _decode_array(buffer: "_Buffer", fcp: "ref:FcpV2", type: "ref:ArrayType") ->
     ghost_arg("_decode", v=d_list(v)[it])
     option("loop0_locals", {"data": "seq[dyn]"})
     loop(0, over="range(type.size)",
-         invariant=lambda it: buffer.bitaddr >= 0 and implies(
+         invariant=lambda it: buffer.bitaddr >= old(buffer.bitaddr) and implies(
              conforms(fcp, type, v) and starts(fcp, type, buffer.gbits, old(buffer.bitaddr), v),
              buffer.bitaddr == old(buffer.bitaddr) + len(wire_elems(fcp, type.underlying_type, d_list(v), it))
              and len(data) == it and forall(0, it, lambda i: data[i] == d_list(v)[i])))
@@ -121,7 +121,7 @@ def _decode_dynamic_array(buffer: "_Buffer", fcp: "ref:FcpV2", type: "ref:Dynami
     ghost_arg("_decode", v=d_list(v)[it])
     option("loop0_locals", {"data": "seq[dyn]"})
     loop(0, over="range(len)",
-         invariant=lambda it: buffer.bitaddr >= 0 and implies(
+         invariant=lambda it: buffer.bitaddr >= old(buffer.bitaddr) and implies(
              conforms(fcp, type, v) and starts(fcp, type, buffer.gbits, old(buffer.bitaddr), v),
              buffer.bitaddr == old(buffer.bitaddr) + 32 + size(wire_elems(fcp, type.underlying_type, d_list(v), it))
              and size(data) == it and forall(0, it, lambda i: data[i] == d_list(v)[i])))
@@ -156,7 +156,7 @@ def _decode_struct(buffer: "_Buffer", fcp: "ref:FcpV2", name: "str") -> "dyn":
     ghost_arg("_decode", v=dyn_get(v, field.name))
     option("loop0_locals", {"data": "dyn"})
     loop(0, over="sorted(struct.fields, key=lambda field: field.field_id)",
-         invariant=lambda it: buffer.bitaddr >= 0 and d_is_dict(data) and implies(
+         invariant=lambda it: buffer.bitaddr >= old(buffer.bitaddr) and d_is_dict(data) and implies(
              conforms_struct(fcp, name, v) and starts_struct(fcp, name, buffer.gbits, old(buffer.bitaddr), v),
              buffer.bitaddr == old(buffer.bitaddr) + len(wire_fields(fcp, sorted_fields(struct_of(fcp, name)), v, it))
              and forall("str", lambda key: dyn_get(data, key) == ite(
